@@ -27,7 +27,12 @@ PROPS = {
         'theorems': ['CDV.Props.C13.C13_partition', 'CDV.Props.C13.C13_block_count', 'CDV.Props.C13.C13_total', 'CDV.Props.C13.C13_jump_index_in_targets'],
         'modules': ['CDVProofs.Blocks', 'CDVProofs.Props.C13'],
         'eval_keys': ['code_objects'], 'rule': PROGRAM_RULE},
-    'C09': {'theorems': [], 'eval_keys': ['code_objects'], 'rule': PROGRAM_RULE},
+    'C09': {
+        'claimed': True,
+        'level_text': "Proved about the table bookkeeping of decoder (ToArgs.found_index / additional_args) and encoder (FromArgs.add), for every table, every equivalence used as key (shown for names and for constant_key incl. nested CodeData) and every sequence of uses - no bound: (sufficient) re-encoding the decoded operands in order returns exactly the indices they were decoded from, and the additional arguments complete the table with the original entries, each once (C09_overrides_sufficient, C09_additional_complete); (no redundancy) an operand decoded without an override has table position = first-use rank and a key that resolves to that position, and an override on the first use of an entry is justified because without it the encoder would place the entry elsewhere (C09_no_override_means_rank, C09_override_justified). By a refinement invariant (Sim) between the two state machines, induction over the use sequence. Not theorems: that the decoder feeds the tables exactly the operand sequence CPython's disassembly shows (parameters and docstring first) and that the emitted tuple is sorted - decided by the correspondence (model decode = implementation) and the direct oracle: overrides against first-use ranks computed from dis, re-encoding with each remaining override stripped, on compiled and canonically re-encoded code.",
+        'theorems': ['CDV.Props.C09.C09_overrides_sufficient', 'CDV.Props.C09.C09_additional_complete', 'CDV.Props.C09.C09_no_override_means_rank', 'CDV.Props.C09.C09_override_justified', 'CDV.Props.C09.keyEquiv_str', 'CDV.Props.C09.keyEquiv_const'],
+        'modules': ['CDVProofs.Tables', 'CDVProofs.Props.C09'],
+        'eval_keys': ['code_objects'], 'rule': PROGRAM_RULE},
     'C14': {
         'claimed': True,
         'level_text': "Proved for every CodeData (no bound; nested code by induction on depth): whenever to_code's operand tables can be built, iterating the data yields exactly the nested CodeData of the constants table that to_code emits, in table order - each entry once whether it is loaded by one instruction, by several, or by none (C14_iter_is_constants_table); if to_code succeeds, encoding the iterated CodeData one by one gives exactly the code objects in co_consts of the result (C14_iter_matches_co_consts); all_code_data starts with the object itself (C14_all_starts_with_self). That the re-encoded constants are the original code object's constants (the C01 round trip) and that each yielded element equals the stand-alone decoding of the nested code object are not theorems: they are decided by the correspondence (model iter = implementation on every decoded object) and the direct oracle against a recursive walk of co_consts with stand-alone decoding, including dead-code and cross-scope-equal-lambda programs.",
@@ -82,8 +87,8 @@ PROPS = {
     },
     'C08': {
         'claimed': True,
-        'level_text': "Proved for all constants at any nesting of tuples and frozensets (no bound): Constant equality (equality of constant_key) is reflexive, symmetric and transitive; it never identifies values of different types (int/bool/float/complex, str/bytes, tuple/frozenset), distinguishes non-NaN floats by bit pattern (so 0.0 and -0.0), is pointwise inside tuples, and identifies all NaNs; position overrides are part of the value; dataclass equality of whole CodeData (nested code included) is reflexive and symmetric (C08_*). Not theorems: the hash contract (hash is computed from the same key; that Python's hash respects equality of tuples/frozensets/str is a runtime fact), immutability (frozen dataclasses: exhaustive setattr/delattr probe over every field of every class on each interpreter), 'equal data encode to identical code' and the agreement of the partition with CPython's own _PyCode_ConstantKey - those are decided by the correspondence (model consteq = implementation == on every generated pair) and the direct oracle (ctypes _PyCode_ConstantKey as reference partition, set/dict membership, pairs of CodeData obtained by different routes).",
-        'theorems': ['CDV.Props.C08.C08_eq_refl', 'CDV.Props.C08.C08_eq_symm', 'CDV.Props.C08.C08_eq_trans', 'CDV.Props.C08.C08_data_eq_refl', 'CDV.Props.C08.C08_data_eq_symm',
+        'level_text': "Proved for all constants at any nesting of tuples and frozensets (no bound): Constant equality (equality of constant_key) is reflexive, symmetric and transitive; it never identifies values of different types (int/bool/float/complex, str/bytes, tuple/frozenset), distinguishes non-NaN floats by bit pattern (so 0.0 and -0.0), is pointwise inside tuples, and identifies all NaNs; position overrides are part of the value; dataclass equality of whole CodeData (nested code included) is an equivalence relation as well (C08_*). Not theorems: the hash contract (hash is computed from the same key; that Python's hash respects equality of tuples/frozensets/str is a runtime fact), immutability (frozen dataclasses: exhaustive setattr/delattr probe over every field of every class on each interpreter), 'equal data encode to identical code' and the agreement of the partition with CPython's own _PyCode_ConstantKey - those are decided by the correspondence (model consteq = implementation == on every generated pair) and the direct oracle (ctypes _PyCode_ConstantKey as reference partition, set/dict membership, pairs of CodeData obtained by different routes).",
+        'theorems': ['CDV.Props.C08.C08_eq_refl', 'CDV.Props.C08.C08_eq_symm', 'CDV.Props.C08.C08_eq_trans', 'CDV.Props.C08.C08_data_eq_refl', 'CDV.Props.C08.C08_data_eq_symm', 'CDV.Props.C08.C08_data_eq_trans',
                      'CDV.Props.C08.C08_int_ne_bool', 'CDV.Props.C08.C08_int_ne_float', 'CDV.Props.C08.C08_bool_ne_float', 'CDV.Props.C08.C08_float_ne_complex', 'CDV.Props.C08.C08_str_ne_bytes',
                      'CDV.Props.C08.C08_tuple_ne_fset', 'CDV.Props.C08.C08_float_exact', 'CDV.Props.C08.C08_signed_zero', 'CDV.Props.C08.C08_tuple_pointwise', 'CDV.Props.C08.C08_nan_identified', 'CDV.Props.C08.C08_override_matters'],
         'modules': ['CDVProofs.Constants', 'CDVProofs.BeqData', 'CDVProofs.Props.C08'],
